@@ -25,8 +25,16 @@ CHECKS = {
                 text="Every completing strategy (bfs, dfs, minimal-space +-skip, attractor-seed, block with all flag combinations, source-SCC) and limited strategies completed by skipping, optionally after a plain prefix call with symbolic limits: z3 decides per path class that the expanded leaves are exactly the inclusion-minimal trap spaces. U2 exhaustive for single strategies; D3/B21 (quick) and U3/B22/CH4/S2C2 (thorough) time-boxed."),
     "C04": dict(engine="E-CAB", category="model_checking", design_ref="§3.2, §6 C04", technique=T_CAB,
                 text="Histories of plain expansion calls with symbolic start nodes, limits and targets; after every call the partial-diagram invariant is decided for the whole path class, and the continued full expansion is decided against the C02 hierarchy and compared with a fresh diagram."),
+    "C06": dict(engine="E-CAB", category="model_checking", design_ref="§6 C06", technique=T_CAB,
+                text="Real succession_control over a symbolic network with symbolic target, strategy, driver bound, forbidden set and skip_feedforward flag, on fresh and pre-expanded/skipped/block-expanded diagrams: for every intervention flagged successful z3 decides nesting of the trap spaces, LDOI containment of the motif, and - over the overridden network's REACH/ATTR - that every attractor reachable from the previous trap space carries the motif; the final space's minimal trap spaces lie in the target."),
+    "C07": dict(engine="E-CAB", category="model_checking", design_ref="§6 C07", technique=T_CAB,
+                text="On a fresh diagram: the diagram after control is a faithful partial diagram expanded exactly where the target requires; every root path x motif choice is listed iff it ends in an outermost node all of whose minimal trap spaces lie in the target; per step the reported overrides are exactly the inclusion-minimal allowed variable sets within the bound that force the motif (decided with the symbolic percolation definition); success flag and successful_only filter are exact."),
     "C08": dict(engine="E-CAB", category="model_checking", design_ref="§3.2, §6 C08", technique=T_CAB,
                 text="Real compute_attractor_candidates (incl. greedy ASP optimisation, simulation minification, retained-set regeneration) on a symbolic node of a prefix history with the two option flags and the four numeric configuration fields as solver variables; z3 decides coverage of every attractor via REACH/ATTR over the symbolic truth table."),
+    "C11": dict(engine="E-CAB", category="model_checking", design_ref="§6 C11", technique=T_CAB + " (fine mode: update-function handles carry a symbolic denotation)",
+                text="Real percolate_space on a symbolic subspace (AEON's answer is an observation against the least-fixed-point definition; idempotence and trap-space preservation decided per class) and the real hand-written percolate_space_strict / function_eval / find_single_node_LDOIs / find_single_drivers executed on BDD handles whose is_true/is_false/r_restrict are observations over the symbolic truth table."),
+    "C12": dict(engine="E-CAB", category="model_checking", design_ref="§6 C12", technique=T_CAB + " (coarse: set contents are per-representative observations against REACH)",
+                text="Real node_attractor_sets / node_attractor_seeds(symbolic_fallback=True) on a symbolic node of a prefix history (sets before/after seeds and candidates, after reclaim, skip nodes): every returned VertexSet is enumerated and observed against the forward closure of its seed over the symbolic truth table; z3 decides per class that closure = attractor, in seed order, over all variables; the fallback's attractor family equals the default method's on a twin diagram. The inside of symbolic_attractor_test is validated per representative, not class-generalised."),
     "C13": dict(engine="E-CAB", category="model_checking", design_ref="§6 C13", technique=T_CAB + "; work budget watchdog per class",
                 text="Every public operation is executed on the representative of every path class under a generous wall budget; a representative that exceeds it is replayed with a time-out. Coarse mode: inside the opaque attractor region termination is per representative."),
     "C14": dict(engine="E-CAB", category="model_checking", design_ref="§6 C14", technique=T_CAB,
@@ -35,6 +43,12 @@ CHECKS = {
                 text="Symbolic size/level/stack limits, symbolic configuration limits and a symbolic fault position (k-th ASP solver call raises): after the interrupted call the partial-diagram invariant is decided per class, nothing is cached after an error, and the resumed call equals an uninterrupted twin."),
     "C16": dict(engine="E-CAB", category="model_checking", design_ref="§6 C16", technique=T_CAB + " (relational: twin diagram in the same run)",
                 text="A history with pickle round-trip / reclaim_node_data inserted is run next to a twin without it under the same symbolic parameters; every later observable must coincide. The solver supplies the network and parameter coverage (compared values are class-constant)."),
+    "C17": dict(engine="E-CAB", category="model_checking", design_ref="§6 C17", technique=T_CAB + " (relational; presentations interpreted over permuted/negated views of the same symbolic bits)",
+                text="Each class representative is re-written (CNF, nested ITE, aeon, sbml, renamed + re-ordered, variables negated) and the real code runs on every presentation, each interpreted over a view of the same symbolic truth table, so both runs are covered by the class; diagrams are compared after mapping spaces back, attractors through REACH. sanitize_network_names runs on solver-chosen symbolic name tuples with validity/identity-pattern generalisation."),
+    "C18": dict(engine="E-CAB", category="model_checking", design_ref="§6 C18", technique=T_CAB + " (product networks composed from component atoms; input-fixed views)",
+                text="(1) symbolic product networks A x B: the real code on the union and on each part; minimal trap spaces and attractors of the union are exactly the pairwise products (decided via composed REACH). (2) networks with source variables: for every valuation the diagram of the network with inputs replaced by constants (a view sharing the bits) is isomorphic to the part of the free-input diagram below that valuation's node, with the same attractors. (3) the third sentence of C18 (large published models vs. an independent symbolic computation) is not claimed."),
+    "C19": dict(engine="E-CAB", category="model_checking", design_ref="§6 C19", technique=T_CAB + "; cross-interpreter comparison per representative",
+                text="Every path-class representative is built twice in the harness process (with an unrelated diagram in between) and again in fresh interpreters with other PYTHONHASHSEEDs; ids, spaces, edges, motifs, depths, seeds and interventions must be identical. In-process equality is class-constant; the hash-seed dimension is sampled and stated as such."),
     "C20": dict(engine="E-CAB", category="model_checking", design_ref="§6 C20", technique=T_CAB,
                 text="After every call of a symbolic history: depth = longest root path, ids contiguous, find_node exact for all 3^n spaces, is_subgraph/is_isomorphic = set inclusion/equality against a fresh full diagram; after build() the parsed summary lists every attractor of every network of the class exactly once with the right label."),
 }
